@@ -13,7 +13,8 @@ SPEC = dict(
          "metadata changed) / shard missing x 1-5 Set/UnsetTombstone operations (existing or absent id, 25% repeats and 35% inverses of the "
          "previous op, 10% injected os.CreateTemp failure, 20% injected os.Rename failure) x 4 queries (the first a bare repo-level filter: query.Repo / RepoRegexp with "
          "anchored alternations, RepoSet over embedded and renamed names, RepoIDs, Meta - over subsets of the shard's repositories incl. all / all but one; "
-         "the others boolean combinations of those with file-name and content substrings, And/Or/Not/Const) evaluated with Search and List on a freshly reloaded shard before and after every op. "
+         "the others boolean combinations of those with file-name and content substrings, And/Or/Not/Const) evaluated with Search, Search under ShardRepoMaxMatchCount in {0,1,2} "
+         "(hidden / subset-of-unlimited / exact per-repository prefix oracles; compared with the model's search_lim) and List on a freshly reloaded shard before and after every op. "
          "Go oracle per observation: exact Search result against a reference evaluator, List bounds, hidden repositories/paths; per successful op: results of every "
          "OTHER alive repository identical before/after. distinct by (template, seed sidecar, op history, queries); non-trivial = compound shard (>= 2 repositories) and >= 2 ops.",
     trusted_base=["correspondence harness harness/overlay/index/zz_verif_c17_test.go (generator, canonicalisation, Go oracle) and the fault "
